@@ -549,7 +549,14 @@ def evaluate__max_min_functions(self: XPathFunction, context: ta.ContextType = N
 @method(function('exists', nargs=1, sequence_types=('item()*', 'xs:boolean')))
 def evaluate__empty_and_exists_functions(self: XPathFunction, context: ta.ContextType = None) \
         -> bool:
-    return bool(next(iter(self.select(context))))
+    # Not through self.select(): the select of a partial application yields the function item
+    try:
+        value = next(iter(self[0].select(self.context or context)))
+    except StopIteration:
+        exists = False
+    else:
+        exists = value is not None and value != []
+    return exists if self.symbol == 'exists' else not exists
 
 
 @method('empty')
